@@ -118,7 +118,10 @@ def step (w : W) (toks : List String) : W × String :=
       let inv1 := nonNegativeStates r.world.states
       let inv2 := stateSumMatchesBalance w.env r.world
       let br := (C4E.Bridge.bridge w.env w.params w.world w.faults).show
-      (w', s!"ok br={br} states=[{";".intercalate (r.world.states.map showState)}] main={showCoins (nz (r.world.bank.balance w.env.mainAddr))} ev=[{";".intercalate (r.events.map showEvent)}] burned={showCoins (nz r.world.bank.burned)} bal={showBals w'} inv={if inv1 then 1 else 0}{if inv2 then 1 else 0} calls={r.world.callIdx}")
+      -- the external hypotheses of the whole-block theorems (C03.faithful_block_books, C10.distributor_block_completes),
+      -- evaluated on this scenario's environment and stored parameters
+      let hyp := if !paramsValid w.env w.params then "na" else if envOkB w.env && bech32FactsB w.params then "ok" else "FAIL"
+      (w', s!"ok br={br} hyp={hyp} states=[{";".intercalate (r.world.states.map showState)}] main={showCoins (nz (r.world.bank.balance w.env.mainAddr))} ev=[{";".intercalate (r.events.map showEvent)}] burned={showCoins (nz r.world.bank.burned)} bal={showBals w'} inv={if inv1 then 1 else 0}{if inv2 then 1 else 0} calls={r.world.callIdx}")
     | _ => (w, "panic")
   | ["d.update", "full", auth] =>
     match updateFull w.env (auth = "gov") w.pending with
